@@ -418,6 +418,81 @@ def good_fixed_caps():
     return FixedCaps
 
 
+class FixedCtxPrefix(Entity):
+    """module level class whose prefixes / generated names are only created inside a traced context (recompiled in histories)"""
+    clk = Port.input(Bit)
+    inp = Port.input(BitVector[4])
+    outp = Port.output(BitVector[4], default="0000")
+
+    def architecture(self):
+        @std.sequential(std.Clock(self.clk))
+        def proc():
+            with std.prefix("stage"):
+                first = Signal[BitVector[4]](name=std.name("reg"))
+            with std.prefix("stage"):
+                second = Signal[BitVector[4]](name=std.name("reg"))
+            first.next = self.inp
+            second.next = first
+            self.outp <<= second
+
+
+def good_fixed_ctx_prefix():
+    return FixedCtxPrefix
+
+
+def good_literal_like_names():
+    """ports and signals named like the literals of enumerations / state types of *other* designs (idle, busy, state_0 ...)"""
+    class Handshake(Entity):
+        clk = Port.input(Bit)
+        req = Port.input(Bit)
+        busy = Port.output(Bit, default=False)
+        done = Port.output(Bit, default=False)
+        state_0 = Port.output(Bit, default=False)
+
+        def architecture(self):
+            idle = Signal[Bit](False, name='idle')
+            state_1 = Signal[Bit](False, name='state_1')
+
+            @std.sequential(std.Clock(self.clk))
+            def proc():
+                idle.next = ~self.req
+                state_1.next = idle
+                self.busy <<= self.req
+                self.done <<= state_1
+                self.state_0 <<= idle
+    return Handshake
+
+
+def good_enum_phases():
+    class Phase(cohdl.enum.Enum):
+        idle = cohdl.enum.auto()
+        busy = cohdl.enum.auto()
+        done = cohdl.enum.auto()
+
+    class Sequencer(Entity):
+        clk = Port.input(Bit)
+        start = Port.input(Bit)
+        code = Port.output(BitVector[2], default="00")
+
+        def architecture(self):
+            ph = Signal[Phase](Phase.idle, name='ph')
+
+            @std.sequential(std.Clock(self.clk))
+            def proc():
+                if ph == Phase.idle:
+                    if self.start:
+                        ph.next = Phase.busy
+                elif ph == Phase.busy:
+                    ph.next = Phase.done
+                else:
+                    ph.next = Phase.idle
+
+            @std.concurrent
+            def logic():
+                self.code <<= cohdl.select_with(ph, {Phase.idle: "00", Phase.busy: "01"}, default="11")
+    return Sequencer
+
+
 GOOD = {k[5:]: v for k, v in list(globals().items()) if k.startswith('good_')}
 
 
